@@ -187,9 +187,22 @@ func init() {
 		return res, nil
 	})
 	// clone {desc}: CloneSchemas and its observable guarantees
-	register("clone", func(args json.RawMessage) (any, error) {
+	//
+	// Optional "tail": k > 0 — for trees nested deeper than encoding/json goes. Marshal of a Schema costs time quadratic in the nesting
+	// depth (every level re-validates what its children wrote) and is refused beyond 10 000 levels of JSON nesting, so for such a tree
+	// the whole-tree Marshal observations say nothing. With "tail" they are replaced by the same observations on the SUBTREES rooted at
+	// the Schema objects of the k deepest levels (original and clone are walked in parallel, field by field): reply "shape" (the clone
+	// has a Schema object exactly where the original has one), "tail_equal" (each such subtree of the clone marshals to the bytes of
+	// its counterpart), "tail_frame" (after assigning to fields of every Schema object of the clone, each such subtree of the
+	// original still marshals as before), "depth", "tail_n"; "marshal" is then "skipped". Pointer sets and the Resolve of a parent holding
+	// both are observed as always. Absent or 0 (the default): nothing changes.
+	//
+	// clone-go: the same operation under a second name that the Lean driver does not know (it answers "unknown op"), for trees outside
+	// what the driver's model of Marshal covers (no nesting limit there); judged by the direct oracle of the statement alone.
+	cloneOp := func(args json.RawMessage) (any, error) {
 		var a struct {
 			Desc json.RawMessage `json:"desc"`
+			Tail int             `json:"tail"`
 		}
 		if err := json.Unmarshal(args, &a); err != nil {
 			return nil, err
@@ -197,6 +210,9 @@ func init() {
 		s, _, err := buildSchemas(a.Desc)
 		if err != nil {
 			return nil, err
+		}
+		if a.Tail > 0 {
+			return cloneDeep(s, a.Tail)
 		}
 		c := s.CloneSchemas()
 		res := map[string]any{"outcome": "ok"}
@@ -276,5 +292,128 @@ func init() {
 			res["frame"] = err3 == nil && bytes.Equal(b1, b3)
 		}
 		return res, nil
-	})
+	}
+	register("clone", cloneOp)
+	register("clone-go", cloneOp)
+}
+
+// schemaPair is a Schema object of the original, the object the clone holds at the same place, and its depth below the root.
+type schemaPair struct {
+	s, c  *jsonschema.Schema
+	depth int
+}
+
+// pairSchemas walks s and c in parallel through their schema-holding fields. ok is false if the two trees differ in shape (a nil
+// against a non-nil pointer, slices of different lengths, maps with different key sets).
+func pairSchemas(s, c *jsonschema.Schema) (pairs []schemaPair, ok bool) {
+	ok = true
+	var walk func(s, c *jsonschema.Schema, d int)
+	walk = func(s, c *jsonschema.Schema, d int) {
+		if s == nil || c == nil {
+			if s != c {
+				ok = false
+			}
+			return
+		}
+		pairs = append(pairs, schemaPair{s, c, d})
+		vs, vc := reflect.ValueOf(s).Elem(), reflect.ValueOf(c).Elem()
+		for i := 0; i < vs.NumField(); i++ {
+			fs, fc := vs.Field(i), vc.Field(i)
+			switch fs.Type() {
+			case schemaPtrT:
+				walk(fs.Interface().(*jsonschema.Schema), fc.Interface().(*jsonschema.Schema), d+1)
+			case schemaSliceT:
+				ls, lc := fs.Interface().([]*jsonschema.Schema), fc.Interface().([]*jsonschema.Schema)
+				if len(ls) != len(lc) || (ls == nil) != (lc == nil) {
+					ok = false
+					continue
+				}
+				for k := range ls {
+					walk(ls[k], lc[k], d+1)
+				}
+			case schemaMapT:
+				ms, mc := fs.Interface().(map[string]*jsonschema.Schema), fc.Interface().(map[string]*jsonschema.Schema)
+				if len(ms) != len(mc) || (ms == nil) != (mc == nil) {
+					ok = false
+					continue
+				}
+				for _, k := range sortedKeys(ms) {
+					cc, present := mc[k]
+					if !present {
+						ok = false
+						continue
+					}
+					walk(ms[k], cc, d+1)
+				}
+			}
+		}
+	}
+	walk(s, c, 0)
+	return pairs, ok
+}
+
+// cloneDeep is the clone operation with "tail" (see there). s must be a tree.
+func cloneDeep(s *jsonschema.Schema, tail int) (any, error) {
+	c := s.CloneSchemas()
+	res := map[string]any{"outcome": "ok", "marshal": "skipped"}
+	ps, pc := map[*jsonschema.Schema]bool{}, map[*jsonschema.Schema]bool{}
+	schemaPointers(s, ps)
+	schemaPointers(c, pc)
+	shared := 0
+	for p := range pc {
+		if ps[p] {
+			shared++
+		}
+	}
+	res["shared"] = shared
+	res["count"] = []int{len(ps), len(pc)}
+	pairs, ok := pairSchemas(s, c)
+	res["shape"] = ok
+	depth := 0
+	for _, p := range pairs {
+		if p.depth > depth {
+			depth = p.depth
+		}
+	}
+	res["depth"] = depth
+	var deep []schemaPair
+	for _, p := range pairs {
+		if p.depth > depth-tail {
+			deep = append(deep, p)
+		}
+	}
+	res["tail_n"] = len(deep)
+	before := make([][]byte, len(deep))
+	equal := true
+	for i, p := range deep {
+		b1, e1 := json.Marshal(p.s)
+		b2, e2 := json.Marshal(p.c)
+		if e1 != nil || e2 != nil {
+			return nil, fmt.Errorf("a subtree of the last %d levels does not marshal: %v %v", tail, e1, e2)
+		}
+		before[i] = b1
+		if !bytes.Equal(b1, b2) {
+			equal = false
+		}
+	}
+	res["tail_equal"] = equal
+	_, e0 := (&jsonschema.Schema{AllOf: []*jsonschema.Schema{s}}).Resolve(nil)
+	_, e1 := (&jsonschema.Schema{AllOf: []*jsonschema.Schema{s, c}}).Resolve(nil)
+	res["alone_resolves"] = e0 == nil
+	res["both_resolve"] = e1 == nil
+	// frame: assign to fields of every Schema object of the clone; the deep subtrees of the original must marshal as before
+	for p := range pc {
+		p.Title = p.Title + "#mut"
+		p.Required = append([]string{"mut"}, p.Required...)
+		p.Description = "mut"
+	}
+	frame := true
+	for i, p := range deep {
+		b, err := json.Marshal(p.s)
+		if err != nil || !bytes.Equal(b, before[i]) {
+			frame = false
+		}
+	}
+	res["tail_frame"] = frame
+	return res, nil
 }
